@@ -90,7 +90,8 @@ PoolCore == <<
     RT(".",        One(Dot)),
     RT("^a",       << <<Bol, La>> >>),
     RT("b$",       << <<Lb, Eol>> >>),
-    RT("\\n",      One(Lit("\n")))
+    RT("\\n",      One(Lit("\n"))),
+    RT("b ",       << <<Lb, Lit(" ")>> >>)           \* ends in a blank: the blank belongs to the entry, also on the LAST line of a file
 >>
 
 Lq == Lit("\"")  Lbs == Lit("\\")  Lsp == Lit(" ")
